@@ -23,9 +23,14 @@ fn collect<'a, T: DiffableStr + ?Sized + 'a>(d: &'a TextDiff<'a, 'a, 'a, T>) -> 
     (all, per_op)
 }
 
-fn run_diff(tok: usize, alg: Algorithm, as_str: bool, a: &[u8], b: &[u8]) -> (Vec<Row>, Vec<Row>) {
+fn run_diff(tok: usize, alg: Algorithm, as_str: bool, a: &[u8], b: &[u8], fuel: Option<u64>) -> (Vec<Row>, Vec<Row>) {
     let mut c = TextDiff::configure();
     c.algorithm(alg);
+    if let Some(k) = fuel {
+        // a deadline that the virtual clock lets expire at its k-th check
+        c.deadline(far_deadline());
+        similar::verif_hooks::set_clock(similar::verif_hooks::Clock::Fuel(k));
+    }
     if as_str {
         let sa = std::str::from_utf8(a).unwrap();
         let sb = std::str::from_utf8(b).unwrap();
@@ -111,15 +116,35 @@ fn case(a: &[u8], b: &[u8], algs: &[Algorithm], out: &mut Local) {
                 if as_str && !valid {
                     continue;
                 }
-                let ctx = || format!("tokenizer={} alg={} type={} old={} new={}", TOKS[tok], alg_name(alg), if as_str { "str" } else { "[u8]" }, show(a), show(b));
-                out.eval();
-                match guard(|| run_diff(tok, alg, as_str, a, b)) {
-                    Err(p) => out.violation("panic", format!("text diff panicked: {} | {}", p, ctx())),
-                    Ok((all, per_op)) => {
-                        out.count_n("changes_observed", all.len() as u64);
-                        judge("iter_all_changes", &all, a, b, &ctx, out);
-                        if per_op != all {
-                            judge("ops().flat_map(iter_changes)", &per_op, a, b, &ctx, out);
+                for fuel in [None, Some(0u64), Some(1), Some(1 + (a.len() as u64 * 7 + b.len() as u64) % 6)] {
+                    let ctx = || {
+                        format!(
+                            "tokenizer={} alg={} type={} deadline={} old={} new={}",
+                            TOKS[tok],
+                            alg_name(alg),
+                            if as_str { "str" } else { "[u8]" },
+                            match fuel {
+                                None => "none".to_string(),
+                                Some(k) => format!("expires at check #{}", k),
+                            },
+                            show(a),
+                            show(b)
+                        )
+                    };
+                    out.eval();
+                    let r = guard(|| run_diff(tok, alg, as_str, a, b, fuel));
+                    similar::verif_hooks::set_clock(similar::verif_hooks::Clock::Off);
+                    match r {
+                        Err(p) => out.violation("panic", format!("text diff panicked: {} | {}", p, ctx())),
+                        Ok((all, per_op)) => {
+                            out.count_n("changes_observed", all.len() as u64);
+                            if fuel.is_some() {
+                                out.count("diffs_with_expiring_deadline");
+                            }
+                            judge("iter_all_changes", &all, a, b, &ctx, out);
+                            if per_op != all {
+                                judge("ops().flat_map(iter_changes)", &per_op, a, b, &ctx, out);
+                            }
                         }
                     }
                 }
